@@ -71,6 +71,9 @@ for pn, sn in ((0, 0), (1, 1), (2, 2)):
            "find_domains", funcs=["multidecoder.decoders.network.find_domains"], name=f"domain_p{pn}_s{sn}",
            tier="both" if pn < 2 else "thorough", timeout=900)
 
+_embed(find_domains, "network.domain", 1, 1, "dom_neutral_l", "dom_neutral_r", [b"q", (2, "lower"), b".com"], "find_domains",
+       funcs=["multidecoder.decoders.network.find_domains"], name="domain_7_chars_p1_s1", timeout=600)
+
 # e-mail
 for pn, sn in ((0, 0), (1, 1)):
     # (right neighbour: EMAIL_RE ends in \b, so unlike a bare domain a trailing '0' is not neutral)
